@@ -116,6 +116,8 @@ def exRun : St :=
   (sys newParams oneFile 1).run ([.prod, .prod, .closer, .closer] ++ List.replicate 13 (.cons 0))
 example : waitEnabled exRun ∧ exRun.errors = [] ∧ exRun.done = [(false, "./a")] := by decide
 
+example : (selected exCfg "./" true exTree).count (false, "./a") = 1 := by decide
+
 /-! ### 4. `Wait` returns after the last callback -/
 
 /-- When `Wait` can return no callback is running, and whatever happens afterwards no callback
@@ -131,6 +133,8 @@ theorem wait_after_last_callback (P : Params) (hP : P.fixedOrder = true) (acts :
   refine ⟨inflight_allExited _ hall, fun more => ?_⟩
   have := allExited_runFrom (P := P) (acts := acts) (n := n) hall more
   exact ⟨inflight_allExited _ this.1, this.2⟩
+
+example : waitEnabled exRun ∧ inflight exRun.cons = [] := by decide
 
 /-! ### 5. Bounded concurrency -/
 
@@ -214,6 +218,15 @@ theorem no_stuck_without_kill (P : Params) (hP : P.fixedOrder = true) (acts : Li
   have hI := loop_inv P hP acts n sched
   exact ⟨fun hnf => progress hI hn hk hnf, fun hp => consumer_remains hI hk hp⟩
 
+/-- a state in the middle of a run: not killed, the consumer still in its loop, the closer not done -/
+example :
+    let s := (sys newParams oneFile 1).run [.prod, .cons 0, .cons 0]
+    s.killed = false ∧ ¬ (AllExited s ∧ s.closer = .fin) ∧ s.pending ≠ [] := by
+  refine ⟨by decide, ?_, by decide⟩
+  intro h
+  have : (.fin : CPC) = .waiting := h.2.symm.trans (by decide)
+  cases this
+
 /-- The closer closes the channels only when nothing is left to send. -/
 theorem no_send_on_closed_channel (P : Params) (hP : P.fixedOrder = true) (acts : List PAct) (n : Nat)
     (sched : List Label) :
@@ -222,6 +235,11 @@ theorem no_send_on_closed_channel (P : Params) (hP : P.fixedOrder = true) (acts 
   intro s h
   have hI := loop_inv P hP acts n sched
   exact closed_pending hI.closer (chClosed_closed hI.closer h)
+
+/-- a run in which both channels have been closed -/
+example :
+    let s := (sys newParams oneFile 1).run [.prod, .prod, .closer, .closer, .closer, .closer]
+    s.dClosed = true ∧ s.fClosed = true ∧ s.pending = [] := by decide
 
 /-! ### 8. The order of the pinned tree loses the last item -/
 
